@@ -57,10 +57,17 @@ PROPS = {
                             "B: seeded histories over 15 operations with type checks of both views after every step.",
                 assumptions=["A: CPython typing facts: / and float() give float; //, %, int(), round(x), len() give int; int op int is int", "history closure is the usual invariant argument (every operation preserves ticks_int)"],
                 note="a refuted tag obligation has no model of its own; the failing input comes from the bounded tier"),
-    "C12": dict(level="other", bounded=True, technique="bounded round trips through a real temporary MIDI file (mido is the assumed codec)", explanation="B: save/load round trips of generated sequence lists; notes and signatures in force compared by an independent oracle.",
-                assumptions=["A: mido encodes and decodes the track messages faithfully"], note="not yet under contract; known finding D16"),
-    "C13": dict(level="other", bounded=True, technique="bounded differential test against exact rational positions (fractions.Fraction) on files written directly with mido",
-                explanation="B: 13 resolutions x irregular delta patterns x track groupings / meta selections / meta targets.", assumptions=["A: mido"], note="not yet under contract; known finding D19"),
+    "C12": dict(level="other", bounded=True, technique="contract-based deductive verification of the save path up to the mido boundary (field-wise copies, every event written at its absolute tick) + bounded round trips through a real temporary file (mido is the assumed codec)",
+                explanation="U: MidiMessage.parse_internal_message and RelativeSequence.to_midi_track copy every field of every message; MidiTrack.to_mido_track writes every note / signature / control event with a delta time such that "
+                            "its absolute tick (sum of the delta times written so far) equals the absolute tick of its source message (loop invariant over two wait-sums related by lemma wsum_ext; assertion anchored at every track.append). "
+                            "B: save -> load round trips of generated sequence lists compared by an independent oracle (notes, signatures in force).",
+                assumptions=[INTS, "A: mido.Message / mido.MetaMessage store their keyword arguments; mido.MidiFile.save / load is a faithful codec", SORT],
+                note="the load path (parse_mido_message, convert) and the file codec are bounded / assumed; known finding D16"),
+    "C13": dict(level="other", bounded=True, technique="contract-based deductive verification of MidiMessage.parse_mido_message (note-on with velocity 0 is a note-off, fields copied, key names) + bounded differential test against exact rational positions (fractions.Fraction) on files written directly with mido",
+                explanation="U: parse_mido_message maps every mido message kind to the right event with the right fields; note_on with velocity 0 and note_off both give NOTE_OFF; F: key names round-trip through the key table. "
+                            "B: rescaling to the nearest tick without drift (13 resolutions, long irregular delta patterns), routing over groupings / meta selections / meta targets, sounding-set union per group.",
+                assumptions=["A: mido decodes the file into the message objects the file was written from", FLOAT],
+                note="MidiFile.convert (rescaling with float accumulation, routing) is bounded only; known finding D19"),
     "C15": dict(level="other", bounded=True, technique="bounded enumeration over families of sequences and all merge orders with an independent piano-roll oracle", explanation="B: sounding-set union, fusion, signatures, duration, order independence.", assumptions=[SORT], note="not yet under contract"),
     "C17": dict(level="other", bounded=True, technique="contract-based deductive verification of AbsoluteSequence.equals against the property's definition of equality over the canonical pairings, and of the Sequence.equals wrapper (same flags) + bounded generated pairs",
                 explanation="U: AbsoluteSequence.equals returns True iff the two interleaved pairing lists have equal length and agree pairwise on type, tick, pitch, duration, velocity unless ignored, channel unless ignored, "
